@@ -255,7 +255,7 @@ func (h *c19HookCfg) matches(op string, o *unstructured.Unstructured) bool {
 type c19Wire struct {
 	st      *Store
 	idx     *c19Indexer
-	handler admission.Handler
+	handler *admission.Webhook
 	cfg     *c19HookCfg
 	err     string
 }
@@ -282,7 +282,7 @@ func c19NewWire(st *Store) *c19Wire {
 	})
 	if h, ok := hs.hooks[w.cfg.Path]; ok {
 		if wa, ok := h.(*admission.Webhook); ok {
-			w.handler = wa.Handler
+			w.handler = wa
 		}
 	}
 	return w
@@ -409,7 +409,9 @@ type c19Sys struct {
 	hookCode         int32
 	hookAllowed      bool
 
-	everConcurrent bool
+	// stale[k]: the in-use label of resource k was removed by a reconcile whose count of
+	// Usages (taken before another Usage of k appeared) was already out of date (defect D16)
+	stale map[string]bool
 }
 
 func (s *c19Sys) mon(sig, why string) {
@@ -424,7 +426,7 @@ func c19NewSys(maxc int) *c19Sys {
 	sc := runtime.NewScheme()
 	_ = v1beta1.AddToScheme(sc)
 	st := NewStore(sc)
-	s := &c19Sys{st: st, maxc: maxc, threads: map[string]*c19Thread{}, monSeen: map[string]bool{}}
+	s := &c19Sys{st: st, maxc: maxc, threads: map[string]*c19Thread{}, monSeen: map[string]bool{}, stale: map[string]bool{}}
 	s.wire = c19NewWire(st)
 	if s.wire.err != "" {
 		s.mon("C19:webhook-setup-failed", s.wire.err)
@@ -471,10 +473,14 @@ func (s *c19Sys) admit(verb string, cur *unstructured.Unstructured) error {
 		OldObject: runtime.RawExtension{Raw: raw},
 		Options:   runtime.RawExtension{Raw: optsRaw},
 	}}
+	// the registered *admission.Webhook recovers a panic of the handler and answers 500
 	var resp admission.Response
 	if p := Guard(func() { resp = s.wire.handler.Handle(context.Background(), req) }); p != "" {
 		s.mon("C19:webhook-panic", p)
 		return denied
+	}
+	if resp.Result != nil && strings.Contains(resp.Result.Message, "panic:") {
+		s.mon("C19:webhook-panic", "the webhook handler panicked while handling the DELETE of "+cur.GetKind()+"/"+cur.GetName()+": "+resp.Result.Message)
 	}
 	s.hookAllowed = resp.Allowed
 	if resp.Result != nil {
@@ -559,9 +565,6 @@ func (s *c19Sys) start(name string) string {
 		t.parked <- struct{}{}
 	}()
 	<-t.parked
-	if s.active() > 1 {
-		s.everConcurrent = true
-	}
 	if t.done {
 		return "started;" + s.finish(t)
 	}
@@ -879,11 +882,13 @@ func (u *c19SUsage) names(r *c19SRes) bool {
 	return u.OfName != "" && u.OfGroup == r.Group && u.OfKind == r.Kind && u.OfName == r.Name
 }
 
-func (s *c19Sys) concurrentSuffix() string {
-	if s.everConcurrent {
-		return "-concurrent"
+// sigFor classifies a violation concerning resource k: if the label of k was last removed
+// under an out-of-date count it is the known race D16, otherwise the plain signature.
+func (s *c19Sys) sigFor(k, plain string) string {
+	if s.stale[k] {
+		return "C19:marker-removed-after-stale-count"
 	}
-	return ""
+	return plain
 }
 
 // checkState evaluates the state part of the property after every step.
@@ -894,14 +899,14 @@ func (s *c19Sys) checkState(before, after *c19Snap, step int) {
 		}
 		for _, r := range after.Res {
 			if u.names(r) && !r.InUse {
-				s.mon("C19:ready-usage-unmarked"+s.concurrentSuffix(), fmt.Sprintf("after step %d Usage %s is ready and not being deleted but %s lacks the in-use label", step, u.Name, c19ResKey(r.Group, r.Kind, r.Name)))
+				s.mon(s.sigFor(c19ResKey(r.Group, r.Kind, r.Name), "C19:ready-usage-unmarked"), fmt.Sprintf("after step %d Usage %s is ready and not being deleted but %s lacks the in-use label", step, u.Name, c19ResKey(r.Group, r.Kind, r.Name)))
 			}
 		}
 		// moment ready is set
 		if b, ok := before.Usages[u.Name]; !ok || !b.Ready || b.UID != u.UID {
 			for _, r := range after.Res {
 				if u.names(r) && !r.InUse {
-					s.mon("C19:ready-before-marker"+s.concurrentSuffix(), fmt.Sprintf("step %d set Usage %s ready while %s lacks the in-use label", step, u.Name, c19ResKey(r.Group, r.Kind, r.Name)))
+					s.mon(s.sigFor(c19ResKey(r.Group, r.Kind, r.Name), "C19:ready-before-marker"), fmt.Sprintf("step %d set Usage %s ready while %s lacks the in-use label", step, u.Name, c19ResKey(r.Group, r.Kind, r.Name)))
 				}
 			}
 			if u.HasBy {
@@ -938,6 +943,11 @@ func (s *c19Sys) afterCall(t *c19Thread, c CallInfo, before *c19Snap) {
 			}
 		}
 	}
+	for k, rb := range before.Res {
+		if ra, ok := after.Res[k]; !ok || ra.UID != rb.UID || (!rb.InUse && ra.InUse) {
+			delete(s.stale, k)
+		}
+	}
 	if c.Verb == "update" && c.Applied {
 		for k, rb := range before.Res {
 			ra, ok := after.Res[k]
@@ -964,12 +974,9 @@ func (s *c19Sys) afterCall(t *c19Thread, c CallInfo, before *c19Snap) {
 			if listedOthers > 0 {
 				s.mon("C19:marker-removed-with-other-usage", fmt.Sprintf("reconcile of Usage %s removed the in-use label of %s although %d other Usage(s) it had listed name that resource", t.name, k, listedOthers))
 			}
-			for _, u := range before.Usages {
-				if u.Name != t.name && u.names(rb) && u.Ready && !u.Deleting {
-					if listedOthers == 0 {
-						s.mon("C19:marker-removed-after-stale-count", fmt.Sprintf("reconcile of deleted Usage %s listed no other Usage of %s, Usage %s was then created and became ready, and the reconcile still removed the in-use label (its rv-checked update is not invalidated by the no-op label update of %s)", t.name, k, u.Name, u.Name))
-					}
-				}
+			if listedOthers == 0 && others > 0 {
+				// every other Usage of k appeared after this reconcile counted: its count was out of date
+				s.stale[k] = true
 			}
 			_ = others
 		}
@@ -997,7 +1004,7 @@ func (s *c19Sys) afterDelete(before *c19Snap, group, kind, name, policy, res str
 	sort.Strings(ready)
 	allowed := strings.HasPrefix(res, "allowed")
 	if allowed && len(ready) > 0 {
-		s.mon("C19:delete-allowed-while-ready"+s.concurrentSuffix(), fmt.Sprintf("delete of %s was allowed although Usage(s) %v are ready and not being deleted", k, ready))
+		s.mon(s.sigFor(k, "C19:delete-allowed-while-ready"), fmt.Sprintf("delete of %s was allowed although Usage(s) %v are ready and not being deleted", k, ready))
 	}
 	if s.hookInvoked && allowed && len(named) > 0 {
 		s.mon("C19:webhook-allowed-with-usage", fmt.Sprintf("the webhook allowed the delete of %s (request group %q) although Usage(s) %v name it", k, group, named))
@@ -1020,6 +1027,7 @@ func (s *c19Sys) afterDelete(before *c19Snap, group, kind, name, policy, res str
 		}
 	}
 	if allowed {
+		delete(s.stale, k)
 		if _, still := after.Res[k]; still {
 			s.mon("C19:allowed-delete-did-not-delete", "delete of "+k+" was allowed but the object is still there")
 		}
